@@ -350,6 +350,19 @@ def run(chk):
             r = Run(exs, warc=warc)
             r.execute()
             runs.append(('random', NX, exs, r))
+    # directed renderings (every seed): alone, and followed by an ordinary exchange on the same connection
+    import random as _random
+    for k, ch in enumerate(M.directed_choices()):
+        for NX in (1, 2):
+            r_ = _random.Random(1000 + k)
+            cm = M.build_cmsg(ch, r_)
+            exs = [{'cm': cm, 'pieces': M.random_pieces(r_, len(M.sent(cm)))}]
+            if NX == 2:
+                cm2 = M.build_cmsg(dict(ch, te='none', cl='exact', interim=0, split_te=None, vspace=None, fmt='crlf', sclose=False), r_)
+                exs.append({'cm': cm2, 'pieces': M.random_pieces(r_, len(M.sent(cm2)))})
+            r = Run(exs, warc=warc)
+            r.execute()
+            runs.append(('directed', NX, exs, r))
     if warc:
         # requests that carry a body (--post-data): the request record holds header block AND body
         npost = 0
